@@ -13,6 +13,8 @@ import (
 	"github.com/gcash/bchutil"
 
 	al "verif/harness/cmd/c01/addrlib"
+	"verif/harness/cmd/c01/addrlib/codecenv"
+	"verif/harness/cmd/c01/addrlib/envrun"
 	"verif/harness/internal/vh"
 )
 
@@ -344,12 +346,80 @@ func workers(r *vh.RNG) {
 	}
 }
 
+// hookPurity: the unexported workers (through the verif hooks) on inputs of 0..300 bytes with spare capacity
+// behind the slice, valid and invalid parameters: the whole backing array is compared afterwards, also when the
+// call ends in an error (round 3: error paths that format or abbreviate their input in place).  The unexported
+// convertBits has no range check of its own (its callers pass 8 and 5; toBits = 0 does not terminate), so only
+// group sizes 1..8 are used here; the exported bech32.ConvertBits gets the invalid sizes (harness c07).
+func hookPurity(r *vh.RNG) *codecenv.Mon {
+	m := codecenv.New("C01")
+	m.Phase = "hook functions"
+	for _, n := range codecenv.Sizes(cfg.Thorough() || cfg.Search) {
+		for gi, g := range [][2]uint{{8, 5}, {5, 8}, {8, 8}, {5, 5}, {8, 3}, {3, 8}, {1, 8}, {8, 1}, {7, 4}, {4, 6}} {
+			for _, pad := range []bool{false, true} {
+				for pat := 0; pat < 3; pat++ {
+					d := r.Bytes(n)
+					mask := byte(0xff)
+					if g[0] >= 1 && g[0] < 8 {
+						mask = byte(1)<<g[0] - 1
+					}
+					for i := range d {
+						switch pat {
+						case 0:
+							d[i] &= mask
+						case 1:
+							d[i] = 0
+						case 2:
+							d[i] &= mask
+						}
+					}
+					if n > 0 && pat == 1 {
+						d[n-1] = 1 // only the very last bit set: a non-zero incomplete trailing group
+					}
+					if n > 0 && pat == 2 {
+						d[n-1] = 0xff // out of range for fromBits < 8
+					}
+					m.Guarded("bchutil.convertBits", map[string]interface{}{"fromBits": g[0], "toBits": g[1], "pad": pad}, d, codecenv.Spares[(n+gi+pat)%4], func(in []byte) string {
+						_, err := bchutil.VerifConvertBits(in, g[0], g[1], pad)
+						return codecenv.ErrStr(err)
+					})
+				}
+			}
+		}
+		for t := 0; t < 4; t++ {
+			h := r.Bytes(n)
+			sp := codecenv.Spares[(n+t)%4]
+			m.Guarded("bchutil.packAddressData", map[string]interface{}{"type": t}, h, sp, func(in []byte) string {
+				_, err := bchutil.VerifPackAddressData(bchutil.AddressType(t), in)
+				return codecenv.ErrStr(err)
+			})
+			m.Guarded("bchutil.checkEncodeCashAddress", map[string]interface{}{"type": t, "prefix": "bitcoincash"}, h, sp, func(in []byte) string {
+				return "string of " + fmt.Sprint(len(bchutil.VerifCheckEncodeCashAddress(in, "bitcoincash", bchutil.AddressType(t)))) + " characters"
+			})
+		}
+		p := r.Bytes(n)
+		for i := range p {
+			p[i] &= 31
+		}
+		sp := codecenv.Spares[n%4]
+		m.Guarded("bchutil.polyMod", nil, p, sp, func(in []byte) string { return fmt.Sprint(bchutil.VerifPolyMod(in)) })
+		m.Guarded("bchutil.createChecksum", map[string]interface{}{"prefix": "bchtest"}, p, sp, func(in []byte) string { return vh.Hex(bchutil.VerifCreateChecksum("bchtest", in)) })
+		m.Guarded("bchutil.verifyChecksum", map[string]interface{}{"prefix": "bchtest"}, p, sp, func(in []byte) string { return fmt.Sprint(bchutil.VerifVerifyChecksum("bchtest", in)) })
+		// (the unexported encode(prefix, payload) is left out on purpose: it appends the checksum to its argument, i.e.
+		// writes into spare capacity by construction; its only caller hands it a slice made by packAddressData)
+	}
+	return m
+}
+
 func main() {
 	cfg = vh.ParseFlags("C01")
 	rep = vh.NewReport(cfg)
 	rep.Rule = "an execution counts as non-trivial when it constructs, encodes or decodes an address (or regroups a non-empty byte string); distinct by (kind, network, input)"
 	ctx = &al.Ctx{Cfg: cfg, Rep: rep, Cases: vh.NewCases(cfg, "Run.Run_C01", 150)}
 	root := vh.NewRNG(cfg.Seed)
+	// environment monitors (round 3): tables, registered networks, purity on error paths; plain children
+	env := envrun.Start(cfg, rep)
+	env.Merge(hookPurity(root.Fork("hook-purity")))
 
 	if cfg.Replay != "" {
 		// the monitors are deterministic in the seed recorded in the replay file (bin/check passes it)
@@ -398,6 +468,7 @@ func main() {
 	scripts(root.Fork("scripts"))
 	scriptPairs(root.Fork("script-pairs"))
 	pubkeys(root.Fork("pubkeys"))
+	env.Finish()
 
 	if !cfg.Search {
 		_, err := ctx.Cases.Flush()
